@@ -654,7 +654,11 @@ func constructEdgeCases(h *hctx, r *lib.RNG) {
 	run("no-unit-present", make([]*propeller.Unit, k+p), 0)
 	// zero data shards: PadMessage divides by zero before reedsolomon.New can refuse
 	var cu []propeller.Unit
-	_, panicked, _ := lib.Try(func() error { var e error; cu, e = propeller.CreatePropellerUnits(pub.priv, &cid, 9, msg, 0, 2); return e })
+	_, panicked, _ := lib.Try(func() error {
+		var e error
+		cu, e = propeller.CreatePropellerUnits(pub.priv, &cid, 9, msg, 0, 2)
+		return e
+	})
 	implS := "err-or-ok"
 	if panicked {
 		implS = "panic"
